@@ -352,7 +352,21 @@ impl<'a> ReadAdapter<'a> {
             0 => {
                 let buf = self.non_empty_reader_buffer_mut()?;
                 if buf.len() < N {
-                    return Err(DeserializationError::UnexpectedEOF);
+                    // The reader's buffer holds fewer than N bytes, but that does not mean we
+                    // have reached EOF: accumulate bytes in the local buffer until we have N
+                    // of them (this returns an error if we hit EOF first)
+                    self.buffer_at_least(N)?;
+                    // SAFETY: `buffer_at_least` guarantees that the local buffer holds at least
+                    // N bytes
+                    unsafe {
+                        core::ptr::copy_nonoverlapping(
+                            self.buffer().as_ptr(),
+                            output.as_mut_ptr(),
+                            N,
+                        );
+                    }
+                    self.pos += N;
+                    return Ok(output);
                 }
                 // SAFETY: This copy is guaranteed to be safe, as we have validated above
                 // that `buf` has at least N bytes, and `output` is defined to be exactly
@@ -403,10 +417,9 @@ impl<'a> ReadAdapter<'a> {
                     },
                     // We didn't get enough, but haven't necessarily reached eof yet, so fall back
                     // to filling `self.buf`
-                    m => {
-                        let needed = N - (m + n);
+                    _ => {
                         drop(reader_buf);
-                        self.buffer_at_least(needed)?;
+                        self.buffer_at_least(N)?;
                         debug_assert!(self.buffer().len() >= N, "expected buffer to be at least {N} bytes after call to buffer_at_least");
                         // SAFETY: This is guaranteed to be an in-bounds copy
                         unsafe {
@@ -433,15 +446,22 @@ impl<'a> ReadAdapter<'a> {
         Ok(output)
     }
 
-    /// Fill `self.buf` with `count` bytes
+    /// Fill `self.buf` until it holds at least `count` unread bytes
     ///
     /// This should only be called when we can't read from the reader directly
-    fn buffer_at_least(&mut self, mut count: usize) -> Result<(), DeserializationError> {
+    fn buffer_at_least(&mut self, count: usize) -> Result<(), DeserializationError> {
+        // `read_exact` truncates the local buffer once it is exhausted, but leaves `pos` pointing
+        // past its end; start over from the beginning in that case, so that the bytes we are
+        // about to buffer are not skipped
+        if self.pos > self.buf.len() {
+            self.pos = 0;
+        }
+
         // Read until we have at least `count` bytes, or until we reach end-of-file,
         // which ever comes first.
         loop {
-            // If we have successfully read `count` bytes, we're done
-            if count == 0 || self.buffer().len() >= count {
+            // If we have successfully buffered `count` bytes, we're done
+            if self.buffer().len() >= count {
                 break Ok(());
             }
 
@@ -457,7 +477,6 @@ impl<'a> ReadAdapter<'a> {
             let consumed = buf.len();
             self.buf.extend_from_slice(buf);
             reader.consume(consumed);
-            count = count.saturating_sub(consumed);
         }
     }
 }
